@@ -47,8 +47,12 @@ def run(ctx):
     F, R = ctx.facts, ctx.report
     R.explanation = ("TAB-V: the signal / base-type vocabulary as an extracted table equals the spec vocabulary; FIRST: first-definition-wins call discipline on the three result maps and accumulate-then-assemble; "
                      "REFS: unknown signal refs dropped, unknown PDU refs fail; SORT: sort keys are the pushed sequence numbers; LOOKUP: the two lookup keys of extract_metadata; ATTR: the attribute-matching predicate.")
-    R.not_decided = ["the flow XML tag -> reader field -> event field -> model field inside Reader::read_event (a state machine over quick-xml events; not decided)",
-                     "quick-xml event semantics, hash-map contents; permutation invariance as such follows from sort + accumulate-then-assemble (argued, not mechanised)"]
+    R.explanation += (" FLOW-X: every scratch field an emitting arm of Reader::read_event consumes is reassigned by the arm of the opening tag (no leak from an earlier element); "
+                      "FLOW-M / FLOW-K: XML element / attribute -> scratch field -> event field -> public model field, map key / value, sort key and resolver argument, composed from the per-arm table of read_event "
+                      "and the label flow through read_fibexes / read_pdu / read_frame and their closures, compared with the FIBEX layout table.")
+    R.not_decided = ["quick-xml event semantics (nesting of elements is not modelled: FLOW-X is the per-tag reset discipline, not a proof about arbitrary documents)",
+                     "hash-map contents; permutation invariance as such follows from sort + accumulate-then-assemble (argued, not mechanised)",
+                     "Vec<String> hand-over between read_pdu / read_frame and the closures of read_fibexes is followed by type, not by value"]
     for p in (TI, READ, EXTRACT, ATTR, "fibex::read_pdu", "fibex::read_frame"):
         if F.body(p) is None:
             R.violation("ANCHOR", "missing|" + p, "anchor function %s not found" % p, kind="ANCHOR-MISSING")
@@ -59,6 +63,8 @@ def run(ctx):
     sort_keys(ctx)
     lookup(ctx)
     attr(ctx)
+    from rules import lib_fibexflow
+    lib_fibexflow.check(ctx)
 
 
 def typeinfo_row(eng, F, v):
